@@ -88,43 +88,52 @@ Definition patch_function (allp:bool) (k:kernel) (s:os) (a:Z) (bs:list Z) : os *
   | r => r
   end.
 
-Definition do_munmap (s:os) (a len:Z) : os :=
+(* system calls without their trace entry (the allocation loop logs its events itself, newest
+   first, and appends them once: a full scan is 65 537 calls) *)
+Definition munmap_core (s:os) (a len:Z) : os :=
   {| o_mem := o_mem s; o_wr := filter (fun p => negb (zmem p (pages a (Z.max len 1)))) (o_wr s);
      o_owned := remove1 (a,len) (o_owned s);
      o_dirty := filter (fun x => negb (in_range a len x)) (o_dirty s);
-     o_calls := S (o_calls s); o_trace := o_trace s ++ [EMunmap a len] |}.
+     o_calls := S (o_calls s); o_trace := o_trace s |}.
+Definition do_munmap (s:os) (a len:Z) : os := ev (munmap_core s a len) (EMunmap a len).
 
-Definition do_mmap (k:kernel) (s:os) (hint len:Z) : os * option Z :=
+Definition mmap_core (k:kernel) (s:os) (hint len:Z) : os * option Z :=
   let r := k_mmap k (o_calls s) hint len in
   let s' := {| o_mem := o_mem s;
                o_wr := match r with Some a => pages a (Z.max len 1) ++ o_wr s | None => o_wr s end;
                o_owned := match r with Some a => (a,len) :: o_owned s | None => o_owned s end;
                o_dirty := o_dirty s; o_calls := S (o_calls s);
-               o_trace := o_trace s ++ [EMmap hint len r] |} in
+               o_trace := o_trace s |} in
   (s', r).
+Definition do_mmap (k:kernel) (s:os) (hint len:Z) : os * option Z :=
+  let '(s', r) := mmap_core k s hint len in (ev s' (EMmap hint len r), r).
 
 (* allocate_jit_memory_unix, Linux x86_64/aarch64: hinted mmap page by page over
    [src -sat R, src + R]; accept iff |addr - src| <= R, else munmap; panic when exhausted.
-   [strict]: accept iff |addr - src| < R (candidate repair for the AArch64 +128 MiB corner). *)
+   [strict]: accept iff |addr - src| < R (candidate repair for the AArch64 +128 MiB corner).
+   [acc] = events of this call, newest first. *)
 Inductive alloc_res := AFound (a:Z) | AExhausted | AOutOfFuel.
-Fixpoint alloc_loop (strict:bool) (k:kernel) (fuel:nat) (s:os) (start src size:Z) : os * alloc_res :=
+Fixpoint alloc_loop (strict:bool) (k:kernel) (fuel:nat) (s:os) (acc:list event) (start src size:Z) : os * list event * alloc_res :=
   match fuel with
-  | O => (s, AOutOfFuel)
+  | O => (s, acc, AOutOfFuel)
   | S fuel =>
     if start <=? src + RANGE then
-      match do_mmap k s start size with
+      match mmap_core k s start size with
       | (s1, Some a) =>
-          if (if strict then Z.abs (a - src) <? RANGE else Z.abs (a - src) <=? RANGE) then (s1, AFound a)
-          else alloc_loop strict k fuel (do_munmap s1 a size) (start + PAGE) src size
-      | (s1, None) => alloc_loop strict k fuel s1 (start + PAGE) src size
+          if (if strict then Z.abs (a - src) <? RANGE else Z.abs (a - src) <=? RANGE)
+          then (s1, EMmap start size (Some a) :: acc, AFound a)
+          else alloc_loop strict k fuel (munmap_core s1 a size) (EMunmap a size :: EMmap start size (Some a) :: acc) (start + PAGE) src size
+      | (s1, None) => alloc_loop strict k fuel s1 (EMmap start size None :: acc) (start + PAGE) src size
       end
-    else (s, AExhausted)
+    else (s, acc, AExhausted)
   end.
 Definition ALLOC_FUEL : nat := Z.to_nat (2 * RANGE / PAGE + 2).
+Definition with_trace (s:os) (t:list event) : os :=
+  {| o_mem := o_mem s; o_wr := o_wr s; o_owned := o_owned s; o_dirty := o_dirty s; o_calls := o_calls s; o_trace := t |}.
 Definition alloc_jit (strict:bool) (k:kernel) (s:os) (src size:Z) : os * res Z :=
-  match alloc_loop strict k ALLOC_FUEL s (Z.max 0 (src - RANGE)) src size with
-  | (s', AFound a) => (s', ROk a)
-  | (s', _) => (s', RPanic PNoMemory)
+  match alloc_loop strict k ALLOC_FUEL s [] (Z.max 0 (src - RANGE)) src size with
+  | (s', acc, AFound a) => (with_trace s' (o_trace s ++ rev_append acc []), ROk a)
+  | (s', acc, _) => (with_trace s' (o_trace s ++ rev_append acc []), RPanic PNoMemory)
   end.
 
 (* ---- the guard and its drop ---- *)
